@@ -5,7 +5,7 @@ open Morlock Morlock.Model Morlock.Model.Sargon Morlock.Model.Score Morlock.Proo
 open Morlock.Spec (rank)
 -- position 3 of `tiny` is in check
 example := onePlyIfChecked_clip tiny tiny_evalOk 3 invalidScore invalidScore {} (by decide) rfl rfl (by decide) (by decide) (by decide)
-example : (onePlyIfChecked tiny 3 invalidScore invalidScore {}).1 = V tiny fullExploration .static (tiny.ply 3) 1 3 := by decide
+example : (onePlyIfChecked tiny 3 invalidScore invalidScore {}).1 = V tiny (constEx fullExploration) .static (tiny.ply 3) 1 3 := by decide
 #eval (onePlyIfChecked tiny 3 invalidScore invalidScore {}).1
 
 end Morlock.Props.Audit.C20Bsb3
